@@ -1,5 +1,6 @@
 import OnetVerif.Model.C18
 import OnetVerif.Proofs.C18Lemmas
+import OnetVerif.Shapes
 /-! Property C18 — configuration files round-trip and always yield the same identities.
 
 Property theorems over the model of `app/config.go` from the decoded TOML structures onwards
@@ -235,3 +236,57 @@ example :
   refine ⟨by decide, by decide, by decide, by decide, ?_⟩
   simp [readGroup, readServers, toServerIdentity, parseServices, collectServices, sortServices, sameType]
   decide
+
+
+/-! ### the code regions the model stands for
+Regenerated from /repo's source on every run (`harness/cmd/astfacts` → `OnetVerif/Shapes.lean`): the
+calls that matter for synchronisation and data flow, the lock regions and (for decision logic) the
+conditions, in source order.  A re-ordering, a dropped call or a changed condition breaks these
+obligations even when no sampled input or schedule shows a difference; the check then searches for
+a failing input. -/
+theorem c18_shape_config_parseServiceConfig :
+    Shapes.app_config_parseServiceConfig =
+   ["parseServiceIdentity", "network.ServiceIdentities", "sort.Sort"] := rfl
+
+theorem c18_shape_config_parseServerServiceConfig :
+    Shapes.app_config_parseServerServiceConfig =
+   ["parseServiceIdentity", "network.ServiceIdentities", "sort.Sort"] := rfl
+
+theorem c18_shape_config_parseServiceIdentity :
+    Shapes.app_config_parseServiceIdentity =
+   ["ServiceFactory.Suite", "suite.String", "suite.Scalar", "encoding.StringHexToScalar",
+     "encoding.StringHexToPoint", "network.NewServiceIdentity"] := rfl
+
+theorem c18_shape_config_LoadCothority :
+    Shapes.app_config_LoadCothority =
+   ["toml.DecodeFile"] := rfl
+
+theorem c18_shape_config_CothorityConfig_Save :
+    Shapes.app_config_CothorityConfig_Save =
+   ["os.OpenFile", "defer:fd.Close", "fd.WriteString", "fd.WriteString", "toml.NewEncoder",
+     "NewEncoder().Encode"] := rfl
+
+theorem c18_shape_config_CothorityConfig_GetServerIdentity :
+    Shapes.app_config_CothorityConfig_GetServerIdentity =
+   ["suites.Find", "encoding.StringHexToScalar", "encoding.StringHexToPoint",
+     "network.NewServerIdentity", "si.SetPrivate", "parseServiceConfig", "Address.Port",
+     "strconv.Atoi"] := rfl
+
+theorem c18_shape_config_ReadGroupDescToml :
+    Shapes.app_config_ReadGroupDescToml =
+   ["toml.DecodeReader", "s.ToServerIdentity", "onet.NewRoster"] := rfl
+
+theorem c18_shape_config_Group_Toml :
+    Shapes.app_config_Group_Toml =
+   ["encoding.PointToStringHex", "ServiceFactory.Suite", "encoding.PointToStringHex",
+     "suite.String", "suite.String"] := rfl
+
+theorem c18_shape_NewRoster :
+    Shapes.tree_NewRoster =
+   ["if:((len(ids)<1)||(ids[].Public==nil))", "return:nil", "sha256.New", "Public.MarshalTo",
+     "if:(err!=nil)", "Public.MarshalTo", "if:(err!=nil)", "h.Sum", "hex.EncodeToString",
+     "uuid.NewSHA1", "RosterID", "if:(len(ids)!=0)", "if:(e.Public==nil)", "if:(agg==nil)",
+     "Public.Clone", "else", "agg.Add", "return:r"] := rfl
+
+
+end C18
